@@ -553,8 +553,9 @@ func runNOEMPTY(c *Ctx) {
 		if notEmptyFact(cs.Block(), root) {
 			c.OK(P.InstrPos(cs), "flush stores the root node", "dominated by !isEmpty(root node)", false)
 		} else {
-			c.Violation(sh.F, P.InstrPos(cs), "root node persisted without an emptiness test",
+			f := c.Violation(sh.F, P.InstrPos(cs), "root node persisted without an emptiness test",
 				"a never-populated tree has an entry-less node as root; persisting it gives Link=hash(empty node) while an emptied tree gives Link=nil: equal (empty) contents, different roots — and an entry-less node in the store")
+			f.Props = append(f.Props, "C13") // persisting an unmodified empty tree must write nothing
 		}
 	}
 	// (2) *mastNode values stored into Link slots / Mast.root outside constructors
